@@ -537,7 +537,30 @@ func fullRun(dir string, engine string, version string, skipDate bool) (routesBy
 	return string(rb), string(sb), nil
 }
 
+func firstDiff(a, b string) string {
+	i := 0
+	for i < len(a) && i < len(b) && a[i] == b[i] {
+		i++
+	}
+	lo := i - 60
+	if lo < 0 {
+		lo = 0
+	}
+	cut := func(s string) string {
+		hi := i + 60
+		if hi > len(s) {
+			hi = len(s)
+		}
+		if lo > len(s) {
+			return ""
+		}
+		return s[lo:hi]
+	}
+	return cut(a) + " => " + cut(b)
+}
+
 type projOut struct {
+	MetaChanged string   `json:"metaChanged,omitempty"`
 	Spans     []pSpan  `json:"_spans,omitempty"`
 	ConfigErr string   `json:"configErr,omitempty"`
 	SetupErr  string   `json:"setupErr,omitempty"`
@@ -738,6 +761,7 @@ func runProject(p pProject) (out projOut) {
 	}
 	// artifacts: both spec versions and the requested routers, from the REAL metadata
 	res := irOut{Routes: map[string]routesOut{}}
+	metaBefore, _ := json.Marshal(canonIR(fromDefinitions(cfg, meta, p.Engines)))
 	for _, ver := range []string{"3.0.0", "3.1.0"} {
 		c2 := *cfg
 		c2.OpenAPIGeneratorConfig.OpenAPI = ver
@@ -761,6 +785,11 @@ func runProject(p pProject) (out projOut) {
 		} else {
 			res.Spec31 = so
 		}
+	}
+	// the spec generators are handed the metadata the routes generator reads next (cmd.GenerateSpecAndRoutes):
+	// they must leave it as they found it
+	if metaAfter, _ := json.Marshal(canonIR(fromDefinitions(cfg, meta, p.Engines))); string(metaAfter) != string(metaBefore) {
+		out.MetaChanged = "spec generation changed the metadata: " + firstDiff(string(metaBefore), string(metaAfter))
 	}
 	engines := p.Engines
 	if len(engines) == 0 {
